@@ -9,12 +9,18 @@ Proved here (kernel decisions over the regenerated LALR tables and the regenerat
     (LALR action rows over-approximate followers, which is the sound direction for "never" claims);
   * `rparen_states_exclusive`: no state entered by shifting `)` accepts both a division and a regex, so the
     parenthesis stack of the lexer only has to know WHICH `)` it is;
+  * `slash_classes_exclusive` + `slash_reading_is_dictated`: no parser state accepts both a division token (`/`, `/=`) and a
+    regular-expression literal, except the states right after the `}` of `function name(…){…}` where the tables reduce to a
+    declaration on REGEX and to an expression on `/` (finding KF-03a); hence, in every other state, whenever the parser has
+    an action for the `/` token the lexer delivered, the other lexical class would have been a syntax error right there — the
+    reading is the one the grammar dictates, and a wrong guess of the lexer can only end in a syntax error, never in a tree;
   * lexer side (Props/C05lex.lean): `div_allowed_iff`, `div_decision`, `div_decision_independent_of_position`.
 Not proved: that the lexer's parenthesis stack and the LR stack agree on which `)` closes an if/for/while header in
 every reachable configuration; reserved words used as property names (`a.if / b`, finding KF-05c) are outside
 `punctuators_never_div`.  Both are judged by the differential against Spec.Es5Parse token classes.
 -/
 import CalmVerif.Proofs.GrammarFacts
+import CalmVerif.Proofs.SlashExclusive
 import CalmVerif.Props.C05lex
 import CalmVerif.Gen.Tables.Cached
 import CalmVerif.Gen.LexData
@@ -44,6 +50,21 @@ theorem simple_tokens_never_regex : simpleTokensNeverRegex g simple = true := by
 theorem punctuators_never_div : operatorTokensNeverDiv g regexPunctuators = true := by decide +kernel
 
 theorem rparen_states_exclusive : rparenExclusive g = true := by decide +kernel
+
+/-- D: division and regular expression are exclusive per state, outside the function-end states -/
+theorem slash_classes_exclusive : slashExclusive g = true := by decide +kernel
+
+/-- whenever a state has an action on `/` (or `/=`) AND on a regular-expression literal, all these actions are the
+    reductions of `function_declaration` / `function_expr` at the closing brace of a named function -/
+theorem slash_reading_is_dictated {s : Nat}
+    (hd : hasAction g s (g.term "DIV") = true ∨ hasAction g s (g.term "DIVEQUAL") = true)
+    (hr : hasAction g s (g.term "REGEX") = true) :
+    ∃ row, g.action[s]? = some row ∧ functionEndEntry g row (g.term "DIV") = true ∧
+      functionEndEntry g row (g.term "DIVEQUAL") = true ∧ functionEndEntry g row (g.term "REGEX") = true :=
+  slashExclusive_state slash_classes_exclusive hd hr
+
+/-- non-vacuity: exactly two states accept both classes (after `function f(){}` and after `function f(a){}`) -/
+example : (slashBothFrom g 0 g.action).length = 2 := by decide +kernel
 
 /-- non-vacuity -/
 example : simple.length ≥ 8 ∧ regexPunctuators.length ≥ 30 := by decide +kernel
